@@ -243,9 +243,63 @@ CHECKS["C13"] = {
     "assumptions": ASSUME_COMMON,
 }
 
+CHECKS["C19"] = {
+    "level": "exploration",
+    "shards": {"quick": 16, "thorough": 32},
+    "budget": {"quick": 40, "thorough": 300},
+    "rule": "random byte strings (lengths around multiples of 16), offsets and prefixes are hex-dumped and compared "
+            "with an independent formatter; random palettes (zero-length entries, totals below/above the data length, "
+            "entries crossing line ends) must change nothing after the colour codes are stripped; dumpstruct of parsed "
+            "generated structures must contain the hexdump of exactly obj.dumps() and one line per field; "
+            "pack/unpack/p8..u64/swap are compared with int.to_bytes/from_bytes in all endianness spellings; "
+            "distinct = distinct argument tuple",
+    "anchors": ["utils.py"],
+    "required_reach": ["utils.py:_hexdump", "utils.py:hexdump", "utils.py:_dumpstruct", "utils.py:dumpstruct",
+                       "utils.py:pack", "utils.py:unpack", "utils.py:swap", "utils.py:p8", "utils.py:u64",
+                       "utils.py:swap16", "utils.py:swap32", "utils.py:swap64"],
+    "required_cells": ["len%16=0", "len%16=1", "len%16=15", "palette:zeros", "palette:long", "palette:short",
+                       "palette:lineends", "dumpstruct:bits", "dumpstruct:plain", "pack:network", "pack:!", "pack:<"],
+    "assumptions": ASSUME_COMMON,
+}
+
+CHECKS["C20"] = {
+    "level": "exploration",
+    "shards": {"quick": 8, "thorough": 32},
+    "budget": {"quick": 40, "thorough": 300},
+    "rule": "generated definition sets (structs, unions, nested and anonymous members, enums, flags, typedef names, "
+            "arrays, pointers, constants) plus a list of special forms (anonymous enums, typedefs of array/pointer "
+            "types, keyword names, string/bytes/float constants, string aliases) are loaded and passed to the real stub "
+            "generator; the output is parsed with ast and the names bound in the class body, the field annotations and "
+            "enum members are compared with what the cstruct object provides; distinct = distinct definition text",
+    "anchors": ["tools/stubgen.py"],
+    "required_reach": ["tools/stubgen.py:generate_cstruct_stub", "tools/stubgen.py:generate_structure_stub",
+                       "tools/stubgen.py:generate_enum_stub", "tools/stubgen.py:generate_typehint"],
+    "required_cells": ["form:anonymous-enum", "form:array-typedef", "form:keyword-field", "form:string-const",
+                       "form:nested-anon-array", "form:string-alias", "feat:union", "feat:nested", "feat:enum"],
+    "assumptions": ASSUME_COMMON + ["ast.parse decides syntactic validity"],
+}
+
 NOT_APPLICABLE = {}
 
 MANIFEST_TEXT = {
+    "C20": {
+        "text": "The real stub generator is run on generated definition sets and on a list of special forms; ast.parse "
+                "decides validity, and the declared names, structure field annotations and enum members are compared "
+                "with the loaded cstruct object. Held-on-observed; four known stub-generator defects (K3-K6) are "
+                "classified by the offending construct.",
+        "design_ref": "DESIGN.md 4 C20",
+        "note": "a field hint is required to name the field's base type (innermost type of Array[...]/Pointer[...])",
+        "technique": "generated definition sets + ast-based oracle on the emitted stub",
+    },
+    "C19": {
+        "text": "The real utility functions are run on thousands of random inputs and judged by independent oracles: "
+                "an own hexdump formatter, colour-code stripping for arbitrary palettes, containment of the hexdump "
+                "of obj.dumps() and of one line per field in dumpstruct output for parsed generated structures, and "
+                "int.to_bytes/from_bytes for pack/unpack/swap in every endianness spelling. Held-on-observed.",
+        "design_ref": "DESIGN.md 4 C19",
+        "note": "swap of a negative value is compared modulo 2^n (the function returns the unsigned image)",
+        "technique": "randomised differential testing against independent formatters/encoders",
+    },
     "C13": {
         "text": "Metamorphic runtime testing of the real definition parser: thousands of mutants (comment/whitespace "
                 "insertions at token boundaries, dependency-respecting reorderings, split loads) of generated "
